@@ -11,7 +11,7 @@ use hx::*;
 use std::collections::HashMap;
 use std::io::{Read, Write};
 
-const TRACKED: [&str; 8] = ["A", "B", "C", "D", "HOME", "IFS", "PWD", "REPLY"];
+const TRACKED: [&str; 8] = ["A", "B", "AB", "A_1", "HOME", "IFS", "PWD", "REPLY"];
 
 fn sorted_map(m: &[(String, String)]) -> String {
     let mut v: Vec<&(String, String)> = m.iter().collect();
